@@ -170,7 +170,7 @@ Definition m_to_string_k (intlit : bool) (bits : Z) (r : option Z) : res :=
   end.
 Definition m_to_string := m_to_string_k false.
 
-(* toFixed *)
+(* toFixed: RangeError test, NaN, ToString from 1e21 up, -0 turned into +0, then Go's 'f' format *)
 Definition m_to_fixed (bits f : Z) : res :=
   if (20 <? f) || (f <? 0) then RErr 3 else
   match decode bits with
@@ -178,36 +178,28 @@ Definition m_to_fixed (bits f : Z) : res :=
   | DInf neg => RStr (with_sign neg str_Infinity)
   | DFin neg m e =>
       if le_pow10 21 m e then opt_res (float_to_string neg m e)
-      else RStr (go_format_f neg m e f)
+      else RStr (go_format_f (neg && negb (m =? 0)) m e f)
   end.
 
-Definition go_inf (neg : bool) : list Z := (if neg then ch_minus else ch_plus) :: [73; 110; 102].
-
-(* toExponential; f = None for undefined *)
+(* toExponential; f = None for undefined.  NaN and +-Infinity are answered (through
+   floatToString) before the digit count is looked at *)
 Definition m_to_exponential (bits : Z) (f : option Z) : res :=
   match decode bits with
   | DNaN => RStr str_NaN
-  | d =>
+  | DInf neg => RStr (with_sign neg str_Infinity)
+  | DFin neg m e =>
       let prec := match f with Some f => f | None => -1 end in
-      if match f with Some f => (f <? 0) || (20 <? f) | None => false end then RErr 3 else
-      match d with
-      | DInf neg => RStr (go_inf neg)
-      | DFin neg m e => opt_res (go_format_e neg m e prec)
-      | DNaN => RStr str_NaN
-      end
+      if match f with Some f => (f <? 0) || (20 <? f) | None => false end then RErr 3
+      else opt_res (go_format_e neg m e prec)
   end.
 
 (* toPrecision with a defined argument *)
 Definition m_to_precision (bits p : Z) : res :=
   match decode bits with
   | DNaN => RStr str_NaN
-  | d =>
-      if (p <? 1) || (21 <? p) then RErr 3 else
-      match d with
-      | DInf neg => RStr (go_inf neg)
-      | DFin neg m e => opt_res (go_format_g neg m e p)
-      | DNaN => RStr str_NaN
-      end
+  | DInf neg => RStr (with_sign neg str_Infinity)
+  | DFin neg m e =>
+      if (p <? 1) || (21 <? p) then RErr 3 else opt_res (go_format_g neg m e p)
   end.
 
 (* ================= Go strconv.ParseFloat / ParseInt acceptance ================= *)
